@@ -291,7 +291,10 @@ int cmd_geometry(const Args& a) {
         if (!wB0.closed || !(wB0.g.volume > 0) || !(wB0.r > 0)) { c.v = "inconclusive"; c.msg = "generator produced an invalid base mesh: " + wB0.why; emit(c.line()); agg.add(c); continue; }
         // an unreferenced node far outside the cell: the bounding box, the centroid and the axis must ignore it
         B.orphan = !exhaustive && g.coin(0.25);
-        if (B.orphan) { V3 far = wB0.g.centroid + unit_random(g) * (wB0.r * (R)g.uni(3, 30)); B.P.push_back({(double)far.x, (double)far.y, (double)far.z}); }
+        if (B.orphan) { V3 far = wB0.g.centroid + unit_random(g) * (wB0.r * (R)g.uni(3, 30));
+            // at the end of the point list, or in its very first slot (node slot 0 of the cell is then not a node of the surface)
+            if (g.coin(0.5)) B.P.push_back({(double)far.x, (double)far.y, (double)far.z});
+            else { B.P.insert(B.P.begin(), {(double)far.x, (double)far.y, (double)far.z}); for (auto& t : B.T0) for (auto& v : t) v++; agg.bin("unreferenced_node_in_first_slot"); } }
         const Own wB = own_geometry(B);
         agg.bin("family:" + fam); agg.bin(decade("size_decade:", wB.r)); agg.bin("base_" + base_dbin);
         agg.bin(decade("faces_decade:", (R)wB.F)); if (stretched) agg.bin("stretched"); if (B.orphan) agg.bin("unreferenced_node");
